@@ -1,7 +1,7 @@
 (* TypeProofs.v -- proofs of the C05 statements (Properties_C05.v) over TypeModel.v *)
-From Coq Require Import List Bool String Lia Arith.
+From Coq Require Import List Bool String Lia Arith ZArith.
 Import ListNotations.
-Require Import GenTypes AdaptorModel TypeModel.
+Require Import GenTypes AdaptorModel AdaptorProofs TypeModel.
 Local Open Scope string_scope.
 Local Open Scope list_scope.
 
@@ -56,6 +56,12 @@ Proof.
   intros m d args H. destruct m; try reflexivity. exfalso; apply H; reflexivity.
 Qed.
 
+Lemma tpass_length :
+  forall m d args, List.length (tpass m d args) = List.length args.
+Proof.
+  intros m d args. destruct m; try reflexivity. destruct d; [|reflexivity]. simpl. apply map_length.
+Qed.
+
 Lemma tmodes_ok_not_by_value :
   forall M, tmodes_ok M = true ->
     mode_of M "adaptor_functor" <> ByValue /\
@@ -63,9 +69,10 @@ Lemma tmodes_ok_not_by_value :
     mode_of M "bind_functor<-1>" <> ByValue /\
     mode_of M "hide_functor" <> ByValue /\
     mode_of M "retype_return_functor<void>" <> ByValue /\
-    mode_of M "retype_functor" <> ByValue.
+    mode_of M "retype_functor" <> ByValue /\
+    mode_of M "bind_functor" <> ByValue.
 Proof.
-  intros M H. unfold tmodes_ok in H. simpl in H.
+  intros M H. unfold tmodes_ok in H. cbn [forallb] in H.
   repeat (apply andb_true_iff in H; let H1 := fresh "Hm" in destruct H as [H1 H]).
   repeat split; intro E.
   - rewrite E in Hm; discriminate.
@@ -74,40 +81,102 @@ Proof.
   - rewrite E in Hm2; discriminate.
   - rewrite E in Hm3; discriminate.
   - rewrite E in Hm4; discriminate.
+  - rewrite E in Hm5; discriminate.
 Qed.
 
 Lemma memptr_ok_implicit : forall P, memptr_ok P = true -> P = MPImplicit.
 Proof. intros [| |] H; try reflexivity; discriminate. Qed.
 
-Lemma lib_call_args_callable_args :
-  forall M P, tmodes_ok M = true -> memptr_ok P = true ->
-    forall f d args, lib_call_args M P f d args = callable_args f args.
+(* the positional arithmetic outside the range: a count would be negative (does not compile) *)
+Lemma slice_hide_out_of_range :
+  forall S i n, slices_ok S = true -> n <= i ->
+    slice_counts S "hide_functor" (Z.of_nat i) n = None.
 Proof.
-  intros M P HM HP. apply memptr_ok_implicit in HP. subst P.
-  destruct (tmodes_ok_not_by_value M HM) as [H1 [H2 [H3 [H4 [H5 H6]]]]].
-  induction f as [ps rf|rel oc mc ps rf|g IH v|g IH|g IH|g IH]; intros d args; simpl.
+  intros S i n H Hi. destruct (slices_ok_hide S H) as [l [E [E1 E2]]].
+  unfold slice_counts. rewrite E, E1, E2. unfold hide_end, hide_start. cbn [aeval option_map].
+  replace (Z.of_nat i =? - (1))%Z with false by (symmetry; apply Z.eqb_neq; lia).
+  cbn [Z.eqb aeval].
+  replace (0 <=? Z.of_nat n - Z.of_nat i - 1)%Z with false by (symmetry; apply Z.leb_gt; lia).
+  rewrite andb_false_r. reflexivity.
+Qed.
+
+Lemma slice_bind_out_of_range :
+  forall S i n, slices_ok S = true -> n < i ->
+    slice_counts S "bind_functor" (Z.of_nat i) n = None.
+Proof.
+  intros S i n H Hi. destruct (slices_ok_bind S H) as [l [E [E1 E2]]].
+  unfold slice_counts. rewrite E, E1, E2. unfold bind_start, bind_end. cbn [aeval].
+  replace (0 <=? Z.of_nat n - Z.of_nat i)%Z with false by (symmetry; apply Z.leb_gt; lia).
+  rewrite andb_false_r. reflexivity.
+Qed.
+
+(* one positional hop under the expected arithmetic *)
+Lemma hide_at_hop :
+  forall S i (a : list argexpr) (k : list argexpr -> bool), slices_ok S = true ->
+    match slice_counts S "hide_functor" (Z.of_nat i) (List.length a) with
+    | Some (s, e) => Nat.leb s (List.length a) && Nat.leb e (List.length a) && k (firstn s a ++ lastn e a)
+    | None => false
+    end = Nat.ltb i (List.length a) && k (firstn i a ++ skipn (Datatypes.S i) a).
+Proof.
+  intros S i a k HS. destruct (Nat.ltb_spec i (List.length a)) as [Hlt|Hge].
+  - rewrite (slice_hide_some S i (List.length a) HS Hlt).
+    replace (Nat.leb i (List.length a)) with true by (symmetry; apply Nat.leb_le; lia).
+    replace (Nat.leb (List.length a - i - 1) (List.length a)) with true by (symmetry; apply Nat.leb_le; lia).
+    rewrite (lastn_skipn _ a (List.length a - i - 1) (Datatypes.S i)) by lia. reflexivity.
+  - rewrite (slice_hide_out_of_range S i (List.length a) HS Hge). reflexivity.
+Qed.
+
+Lemma bind_at_hop :
+  forall S i (a mid : list argexpr) (k : list argexpr -> bool), slices_ok S = true ->
+    match slice_counts S "bind_functor" (Z.of_nat i) (List.length a) with
+    | Some (s, e) => Nat.leb s (List.length a) && Nat.leb e (List.length a) && k (firstn s a ++ mid ++ lastn e a)
+    | None => false
+    end = Nat.leb i (List.length a) && k (firstn i a ++ mid ++ skipn i a).
+Proof.
+  intros S i a mid k HS. destruct (Nat.leb_spec i (List.length a)) as [Hle|Hgt].
+  - rewrite (slice_bind S i (List.length a) HS Hle).
+    replace (Nat.leb i (List.length a)) with true by (symmetry; apply Nat.leb_le; lia).
+    replace (Nat.leb (List.length a - i) (List.length a)) with true by (symmetry; apply Nat.leb_le; lia).
+    rewrite (lastn_skipn _ a (List.length a - i) i) by lia. reflexivity.
+  - rewrite (slice_bind_out_of_range S i (List.length a) HS Hgt). reflexivity.
+Qed.
+
+Lemma lib_call_args_callable_args :
+  forall M P S, tmodes_ok M = true -> memptr_ok P = true -> slices_ok S = true ->
+    forall f d args, lib_call_args M P S f d args = callable_args f args.
+Proof.
+  intros M P S HM HP HS. apply memptr_ok_implicit in HP. subst P.
+  destruct (tmodes_ok_not_by_value M HM) as [H1 [H2 [H3 [H4 [H5 [H6 H7]]]]]].
+  induction f as [ps rf|rel oc mc ps rf|g IH v|g IH|g IH|g IH|i g IH|i g IH v]; intros d args;
+    cbn [lib_call_args callable_args].
   - rewrite (tpass_not_by_value _ d args H1). reflexivity.
   - rewrite (tpass_not_by_value _ d args H2). reflexivity.
   - rewrite (tpass_not_by_value _ d args H3). apply IH.
   - rewrite (tpass_not_by_value _ d args H4). destruct args; [reflexivity|]. apply IH.
   - rewrite (tpass_not_by_value _ d args H5). apply IH.
   - rewrite (tpass_not_by_value _ d args H6). reflexivity.
+  - rewrite (tpass_not_by_value _ d args H4).
+    rewrite (hide_at_hop S i args (lib_call_args M MPImplicit S g true) HS).
+    rewrite IH. reflexivity.
+  - rewrite (tpass_not_by_value _ d args H7).
+    rewrite (bind_at_hop S i args [mkAE v false] (lib_call_args M MPImplicit S g true) HS).
+    rewrite IH. reflexivity.
 Qed.
 
 Lemma lib_call_callable :
-  forall M P, tmodes_ok M = true -> memptr_ok P = true ->
-    forall f d args r, lib_call M P f d args r = callable f args r.
+  forall M P S, tmodes_ok M = true -> memptr_ok P = true -> slices_ok S = true ->
+    forall f d args r, lib_call M P S f d args r = callable f args r.
 Proof.
-  intros M P HM HP f d args r. unfold lib_call, callable.
-  rewrite (lib_call_args_callable_args M P HM HP). reflexivity.
+  intros M P S HM HP HS f d args r. unfold lib_call, callable.
+  rewrite (lib_call_args_callable_args M P S HM HP HS). reflexivity.
 Qed.
 
 Lemma accepts_iff_callable :
-  forall M P, tmodes_ok M = true -> memptr_ok P = true ->
-    forall sig r f, lib_accepts M P sig r f = direct_ok sig r f.
+  forall M P S, tmodes_ok M = true -> memptr_ok P = true -> slices_ok S = true ->
+    forall sig r f, lib_accepts M P S sig r f = direct_ok sig r f.
 Proof.
-  intros M P HM HP sig r f. unfold lib_accepts, direct_ok.
-  rewrite (lib_call_callable M P HM HP). reflexivity.
+  intros M P S HM HP HS sig r f. unfold lib_accepts, direct_ok.
+  rewrite (lib_call_callable M P S HM HP HS). reflexivity.
 Qed.
 
 (* a method of a class the object's class does not derive from is rejected, whatever else matches *)
@@ -119,9 +188,62 @@ Qed.
 
 (* a factory that casts the method pointer explicitly accepts a method of a derived class on a base object *)
 Lemma explicit_memptr_launders :
-  lib_accepts [] MPExplicit [] None (TMemBound RMethInDerived false false [] None) = true /\
+  lib_accepts [] MPExplicit expected_slices [] None (TMemBound RMethInDerived false false [] None) = true /\
   direct_ok [] None (TMemBound RMethInDerived false false [] None) = false.
 Proof. split; vm_compute; reflexivity. Qed.
+
+(* ------------------------------------------------------------------------------------------ *)
+(* positional adaptors: hide<i> / bind<i> *)
+
+Lemma hide_at_out_of_range_rejected :
+  forall i f sig r, List.length sig <= i -> direct_ok sig r (THideAt i f) = false.
+Proof.
+  intros i f sig r Hi. unfold direct_ok, callable. cbn [callable_args]. rewrite map_length.
+  replace (Nat.ltb i (List.length sig)) with false by (symmetry; apply Nat.ltb_ge; exact Hi).
+  cbn [andb]. apply andb_false_r.
+Qed.
+
+Lemma bind_at_out_of_range_rejected :
+  forall i f v sig r, List.length sig < i -> direct_ok sig r (TBindAt i f v) = false.
+Proof.
+  intros i f v sig r Hi. unfold direct_ok, callable. cbn [callable_args]. rewrite map_length.
+  replace (Nat.leb i (List.length sig)) with false by (symmetry; apply Nat.leb_gt; exact Hi).
+  cbn [andb]. apply andb_false_r.
+Qed.
+
+(* hide<size-1> is hide(), bind<size> is bind() *)
+Lemma hide_at_last_is_hide :
+  forall f args, args <> [] ->
+    callable_args (THideAt (List.length args - 1) f) args = callable_args (THideLast f) args.
+Proof.
+  intros f args Hne. cbn [callable_args].
+  destruct args as [|a0 rest]; [exfalso; apply Hne; reflexivity|].
+  set (l := a0 :: rest).
+  assert (Hlen : 1 <= List.length l) by (unfold l; simpl; lia).
+  replace (Nat.ltb (List.length l - 1) (List.length l)) with true by (symmetry; apply Nat.ltb_lt; lia).
+  replace (Datatypes.S (List.length l - 1)) with (List.length l) by lia.
+  rewrite skipn_all, app_nil_r. rewrite removelast_firstn_len.
+  replace (Nat.pred (List.length l)) with (List.length l - 1) by lia. reflexivity.
+Qed.
+
+Lemma bind_at_end_is_bind :
+  forall f v args, callable_args (TBindAt (List.length args) f v) args = callable_args (TBindLast f v) args.
+Proof.
+  intros f v args. cbn [callable_args].
+  rewrite Nat.leb_refl, firstn_all, skipn_all, app_nil_r. reflexivity.
+Qed.
+
+(* arithmetic that clamps the tail count at zero accepts hide<size>: nothing is dropped, the call goes
+   through with all arguments, although position size names no argument *)
+Lemma clamped_hide_launders :
+  slices_ok clamped_hide_slices = false /\
+  lib_accepts [] MPImplicit clamped_hide_slices [mkP TInt FVal; mkP TInt FVal] None
+    (THideAt 2 (TFun [mkP TInt FVal; mkP TInt FVal] None)) = true /\
+  direct_ok [mkP TInt FVal; mkP TInt FVal] None (THideAt 2 (TFun [mkP TInt FVal; mkP TInt FVal] None)) = false /\
+  (* in range the clamped arithmetic and the expected one agree *)
+  lib_accepts [] MPImplicit clamped_hide_slices [mkP TInt FVal; mkP TInt FVal] None
+    (THideAt 1 (TFun [mkP TInt FVal] None)) = true.
+Proof. vm_compute. repeat split; reflexivity. Qed.
 
 (* ------------------------------------------------------------------------------------------ *)
 (* the named rejection classes *)
@@ -216,6 +338,11 @@ Proof.
 Qed.
 
 Print Assumptions accepts_iff_callable.
+Print Assumptions hide_at_out_of_range_rejected.
+Print Assumptions bind_at_out_of_range_rejected.
+Print Assumptions hide_at_last_is_hide.
+Print Assumptions bind_at_end_is_bind.
+Print Assumptions clamped_hide_launders.
 Print Assumptions arity_mismatch_rejected.
 Print Assumptions unconvertible_parameter_rejected.
 Print Assumptions nonconst_reference_needs_nonconst_lvalue.
